@@ -31,3 +31,21 @@ Theorem C09_shutdown_ends_loop_partial : forall h more1 more2,
   flag (srun h) = true -> wake (srun h) = true -> ph (srun (h ++ more1 ++ SPollReturn :: more2)) = Exited.
 Proof. exact shutdown_terminates. Qed.
 Print Assumptions C09_shutdown_ends_loop_partial.
+
+(* shutdown() issued before a worker thread has entered its loop (serveThreaded() returns before the workers run): the
+   loop looks at the flag before its first poll and ends; issued afterwards, the next return of the poll ends it *)
+Theorem C09_shutdown_around_loop_start_partial : forall before after,
+  (flag (fold_left sstep before loop_init) = true -> ph (srun_from false before after) = Exited)
+  /\ (forall h more1 more2, after = h ++ more1 ++ SPollReturn :: more2 ->
+       flag (fold_left sstep h (start false (fold_left sstep before loop_init))) = true ->
+       wake (fold_left sstep h (start false (fold_left sstep before loop_init))) = true ->
+       ph (srun_from false before after) = Exited).
+Proof. exact shutdown_around_start. Qed.
+Print Assumptions C09_shutdown_around_loop_start_partial.
+
+(* refuted for a loop that resets the flag when it is entered (seeded change C09c) *)
+Theorem C09_refuted_flag_cleared_on_entry :
+  ph (srun_from true [SStore; SNotify] [SPollReturn; SOther; SPollReturn; SPollReturn]) = Waiting
+  /\ ph (srun_from false [SStore; SNotify] [SPollReturn; SOther; SPollReturn; SPollReturn]) = Exited.
+Proof. exact clear_on_entry_refuted. Qed.
+Print Assumptions C09_refuted_flag_cleared_on_entry.
